@@ -45,6 +45,9 @@ CHECKS = {
  'C18': dict(text="Machine-checked Lean 4 proofs over any commutative ring and any pair of algebras: BladeMap on coefficient vectors (pairs of distinct signed basis blades) is additive and homogeneous, maps every listed blade to its partner, and applied twice is the identity on the span of the listed blades (a projection onto it in general); MVArray.sum/gp/op are left folds from the first element; the innermorphism test on absolute differences is symmetric. PARTIAL: the reciprocal-frame identity a_i|a^j=delta_ij has no theorem; MVArray's element-wise lifts are numpy broadcasting (definitional in the model). Tied to /repo by evaluating, on arrays of shape up to 3-D, every operator for array/array, array/single (either side) and numeric-array/multivector (either side) against the element-by-element results, value/from_value_array, the folds, A(g)/dual/normal mapping, Frame.En/inv/is_innermorphic_to on integer frames in non-degenerate signatures, and BladeMap (sta.bm, sta.split, random signed pairings) against the executable model.",
              technique="Lean 4 proof (finite-sum algebra of the blade pairing; partial) + element-wise evaluation and correspondence with the executable BladeMap model",
              design="§6 C18"),
+ 'C17': dict(text="Machine-checked Lean 4 proofs about a store model (arrays with identities; catalogue operations read operands and allocate a fresh result; only setitem/clean/round write, and only into their target): a pure operation changes no existing array and returns fresh memory; a mutator touches its target only; by induction over any history of any length, every array that is never a mutator target keeps its contents; generators are functions of the stream state, and an n-sample request equals n sequential single requests consuming n*k draws. PARTIAL: that each real operation belongs to the class the model assigns is established by replay, not proof; settings non-interference is checked on the implementation. Tied to /repo by replaying random histories (50 / 200 steps) of ~70 catalogue operations and the three mutators over shared operands, earlier results, ConformalLayout constants, multiplication-table arrays and tools.g3c module constants in four layouts, with byte snapshots of every pooled array, np.shares_memory on every result, double evaluation, re-evaluation under changed eps/pretty/precision, step-by-step comparison with the store model, and same-state reproducibility / sequential-consumption checks for every function that accepts rng (both JIT configurations).",
+             technique="Lean 4 proof (invariant by induction over the operation history of a store model) + history replay against the implementation",
+             design="§6 C17"),
 }
 
 def main():
